@@ -547,9 +547,18 @@ theorem parseFrac_some (e : Env) {v : Str} {i : Nat} {ds r : Str} (hd : AllD ds)
     unfold ljust; simp [hne]
   have hval : dval (ljust ds 9 '0') = dval ds * 10 ^ (9 - ds.length) := by
     unfold ljust; exact dval_append_replicate0 _ _
+  -- the character after the point is a digit
+  obtain ⟨d0, dt, rfl⟩ : ∃ d0 dt, ds = d0 :: dt := by
+    cases ds with
+    | nil => exact absurd rfl hne
+    | cons a t => exact ⟨a, t, rfl⟩
+  have hd0 : e.isDigit d0 = true := isDigit_of_digit e ((AllD_cons.1 hd).1)
+  have hg1 : v[i + 1]? = some d0 := Sfx.get (r := dt ++ r) h1
+  have hlt1 : i + 1 < v.length := Sfx.lt (r := dt ++ r) h1
   unfold parseFractionalSecond PS.hasMore PS.peek
   simp only [h.get]
-  simp only [h.lt, decide_true, Bool.true_and, beq_self_eq_true, if_true]
+  simp only [h.lt, decide_true, Bool.true_and, beq_self_eq_true, if_true, hg1, hlt1, Option.map_some,
+    Option.getD_some, hd0, Bool.not_true, Bool.false_eq_true, if_false]
   unfold parseFixedDigits
   simp only []
   rw [hscan, h1.slice, parseInt_digits e _ hall hne', hval]; rfl
